@@ -14,49 +14,49 @@ Definition protected (c : cfgT) (tab : list kline) (um : users_map) (x : layer) 
   || (match users_of um (l_name x) with [] => false | _ => true end)
   || overlain_by_mount c tab x.
 
-Definition refused_unchanged (w : wobs) (s : step) : bool :=
-  rclass_beq (s_res s) RFail && unchanged w s
-  && match s_oplog s with [] => true | _ => false end.
+Definition refused_unchanged (w : wobs) (v : sview) : bool :=
+  rclass_beq (v_res v) RFail && unchanged w v
+  && match v_log v with [] => true | _ => false end.
 
-Definition step_spec (c : cfgT) (w : wobs) (s : step) : bool :=
-  if negb (plain_env (s_env s)) then true else
+Definition step_spec (c : cfgT) (w : wobs) (v : sview) : bool :=
+  if negb (plain_env (v_env v)) then true else
   let f := wo_fs w in
   let m := layers_on_disk c f in
   let tab := ks_tab (wo_ks w) in
-  let um := s_users s in
+  let um := v_users v in
   let target_or_child_protected (n : bytes) (with_children : bool) :=
     match lm_get m n with
     | None => false
     | Some x => protected c tab um x
                 || (with_children && existsb (fun k => beq (l_base k) n && protected c tab um k) m)
     end in
-  match s_cmd s with
-  | CRemove n _ => negb (target_or_child_protected n false) || refused_unchanged w s
-  | CRename n _ => negb (target_or_child_protected n true) || refused_unchanged w s
-  | CRebase n _ => negb (target_or_child_protected n true) || refused_unchanged w s
+  match v_cmd v with
+  | CRemove n _ => negb (target_or_child_protected n false) || refused_unchanged w v
+  | CRename n _ => negb (target_or_child_protected n true) || refused_unchanged w v
+  | CRebase n _ => negb (target_or_child_protected n true) || refused_unchanged w v
   | CUmount n false =>
     match lm_get m n with
     | None => true
     | Some x =>
       let blocked := existsb (in_mount_dirs c) (users_of um n) || overlain_by_mount c tab x in
-      if blocked then refused_unchanged w s
+      if blocked then refused_unchanged w v
       else
         (* users elsewhere in the layer directory do not block: a mounted layer gets unmounted *)
-        negb (has_mounts c tab x) || negb (rclass_beq (s_res s) RFail)
-             || negb (match syscalls (s_oplog s) with [] => true | _ => false end)
+        negb (has_mounts c tab x) || negb (rclass_beq (v_res v) RFail)
+             || negb (match syscalls (v_log v) with [] => true | _ => false end)
     end
   | CUmount [] true =>
     (* no blocked layer is touched *)
     forallb (fun x =>
       let blocked := existsb (in_mount_dirs c) (users_of um (l_name x)) || overlain_by_mount c tab x in
       negb blocked
-      || negb (existsb (fun t => at_or_under (build_path c x) t) (umount_targets (s_oplog s)))
+      || negb (existsb (fun t => at_or_under (build_path c x) t) (umount_targets (v_log v)))
       || (* a parent freed by the unmount of its child in the same run may be unmounted *)
          negb (existsb (in_mount_dirs c) (users_of um (l_name x)))) m
   | _ => true
   end.
 
-Definition spec (c : case) : bool := along (step_spec (c_cfg c)) (w0 c) (c_steps c).
+Definition spec (c : case) : bool := along_views (step_spec (c_cfg c)) (w0 c) (c_steps c).
 Definition wf := LC.wf.
 Definition kf (c : case) : N := 0.
 Definition verdict (c : case) : N := mkverdict (wf c) (LC.corr c) (spec c) (kf c).
